@@ -208,10 +208,10 @@ const (
 	errOth  = "error"
 )
 
-func rUnit() res          { return res{K: "unit"} }
-func rBool(b bool) res    { return res{K: "bool", B: b} }
-func rNum(n int) res      { return res{K: "num", N: n} }
-func rNums(l []int) res   { return res{K: "nums", Ns: append([]int{}, l...)} }
+func rUnit() res            { return res{K: "unit"} }
+func rBool(b bool) res      { return res{K: "bool", B: b} }
+func rNum(n int) res        { return res{K: "num", N: n} }
+func rNums(l []int) res     { return res{K: "nums", Ns: append([]int{}, l...)} }
 func rFlags(l []string) res { return res{K: "flags", Fl: append([]string{}, l...)} }
 
 const sqliteMaxVars = 32766
@@ -561,7 +561,9 @@ func (d *oDB) apply(o *op) (res, string) {
 		}
 		t.Seq++
 		t.Rows = append(t.Rows, oRow{UID: t.Seq, Msg: q.ID, Remote: q.Remote, Deleted: deleted, Recent: true})
-		return rNum(t.Seq), errNone
+		// the operation answers the UID and the flags the new entry shows in this mailbox: the request's flags
+		// (with \Deleted if it was named) and \Recent
+		return res{K: "uidflags", N: t.Seq, Fl: append(append([]string{}, q.Flags...), `\Recent`)}, errNone
 	case "MarkDeleted":
 		if m := d.msg(o.N1); m != nil {
 			m.Deleted = true
